@@ -64,7 +64,9 @@ func isAncestorWalk(h *ast.FuncDecl) bool {
 }
 
 // does fn hold, BEFORE its first call of one of `creators`,
-//   if m.<walk>(..) { ... return ... ENOTDIR ... }
+//
+//	if m.<walk>(..) { ... return ... ENOTDIR ... }
+//
 // with <walk> an ancestor walk of memmap.go?
 func refusesBelowFile(m *srcFile, fd *ast.FuncDecl, creators ...string) bool {
 	limit := firstCallPos(fd, creators...)
